@@ -331,4 +331,6 @@ SUBS = [
 
 # ---- the same selection observed through evo_rpe (delta / tolerance / unit options -> id_pairs_from_delta) -------
 from vf.checks import c02 as _c02
-SUBS.append(Sub("cli_pairs", _c02.sub_cli, _c02.st_cli, 400, 10000, nontrivial=lambda c: True, shards_quick=4))
+SUBS.append(Sub("cli_pairs", _c02.sub_cli, _c02.make_st_cli(unit=st.sampled_from(["f", "r", "d", "m", "m"]), all_pairs=st.sampled_from([True, True, False]),
+                                                            tol=st.sampled_from([0.1, 0.5, 0.0, 1.5, 3.0]), plain=True), 600, 20000,
+                nontrivial=lambda c: True, shards_quick=8))
